@@ -7,6 +7,7 @@ import (
 	"errors"
 	"fmt"
 	"io"
+	"math"
 	"math/big"
 	"regexp"
 	"strconv"
@@ -728,6 +729,9 @@ func (r *reader) read(src []byte) {
 			r.mode = sharpNumMode
 			r.sharpNum = int(b - '0')
 		case sharpNumByte:
+			if (math.MaxInt-9)/10 < r.sharpNum {
+				r.raise("numeric argument to the sharp macro is too large")
+			}
 			r.sharpNum = r.sharpNum*10 + int(b-'0')
 		case radixByte:
 			r.tokenStart = r.pos + 1
